@@ -125,7 +125,7 @@ theorem resolveParts_subst (lower : String → TVal → Option String) (ini : TI
     cases p <;> simp only [List.cons_append, resolveParts, ih]
 
 theorem resolveParts_subst_xref (lower : String → TVal → Option String) (ini : TIni) (cur sec name t : String) (v : TVal)
-    (pre post : TVal) (hv : tLookup ini sec name = some v) (ht : lower sec v = some t) :
+    (pre post : TVal) (hv : tLookupX ini sec name = some v) (ht : lower sec v = some t) :
     resolveParts lower ini cur (pre ++ .xref sec name :: post) = resolveParts lower ini cur (pre ++ .lit t :: post) := by
   induction pre with
   | nil =>
@@ -144,7 +144,7 @@ theorem C15_resolve_subst (ini : TIni) (n : Nat) (cur name t : String) (v : TVal
 
 /-- the same for `${SECTION:KEY}` -/
 theorem C15_resolve_subst_xref (ini : TIni) (n : Nat) (cur sec name t : String) (v : TVal) (pre post : TVal)
-    (hv : tLookup ini sec name = some v) (ht : resolveVal ini n sec v = some t) :
+    (hv : tLookupX ini sec name = some v) (ht : resolveVal ini n sec v = some t) :
     resolveVal ini (n + 1) cur (pre ++ .xref sec name :: post) = resolveVal ini (n + 1) cur (pre ++ .lit t :: post) := by
   simp only [resolveVal]
   exact resolveParts_subst_xref _ ini cur sec name t v pre post hv ht
